@@ -1,0 +1,28 @@
+//go:build verif
+
+// Contracts for package minifier, read by /verif/bin/govc (see /verif/DESIGN.md).
+// Compiled only under the build tag `verif`; comments only.
+
+package minifier
+
+// C17: a renamed symbol must not take a name that some symbol of the program
+// keeps (an exported, excluded or otherwise preserved name): the two would
+// become one binding in the minified program.
+//@ func buildAssignments
+//@   requires cfg != nil && preserved != nil
+//@   assert-at symbolLookupKey [a-minified-name-is-not-a-name-the-program-keeps] !haskey(preserved.names, ret("fmt.Sprintf", 0))
+//@   property C17
+
+// What is never renamed (each line is a clause of the property: exported names,
+// excluded names, package-qualified references and keywords keep working;
+// builtins and special operators keep their meaning).
+//@ func renameable
+//@   requires cfg != nil
+//@   ensures  [no-node-no-rename] sym == nil || sym.Node == nil ==> !result
+//@   ensures  [external-symbols-keep-their-names] sym != nil && sym.Node != nil && sym.External ==> !result
+//@   ensures  [builtins-and-special-operators-keep-their-names] sym != nil && sym.Node != nil && (sym.Kind == analysis.SymBuiltin || sym.Kind == analysis.SymSpecialOp) ==> !result
+//@   ensures  [exported-names-are-kept-by-default] sym != nil && sym.Node != nil && sym.Exported && !cfg.RenameExports ==> !result
+//@   ensures  [excluded-names-are-kept] sym != nil && sym.Node != nil && preserved != nil && haskey(preserved.names, sym.Name) && preserved.names[sym.Name] ==> !result
+//@   ensures  [parameters-are-kept-when-asked] sym != nil && sym.Node != nil && cfg.PreserveParams && sym.Kind == analysis.SymParameter ==> !result
+//@   ensures  [global-variables-and-macros-are-kept] sym != nil && sym.Node != nil && sym.Scope != nil && sym.Scope.Kind == analysis.ScopeGlobal && (sym.Kind == analysis.SymMacro || sym.Kind == analysis.SymVariable) ==> !result
+//@   property C17
